@@ -21,6 +21,15 @@ CHECKS = {
  "C16": dict(engine="X", technique=X.replace(" over pure-Python stand-ins for sqlite/files/json", ""), design="4/C16",
    text="The real FeatureDB.merge and every shipped merge criterion (alone and combined, thresholds symbolic) run under CrossHair on 3 (thorough: 4) start-ordered features with unbounded integer positions; partition law, run-accumulation rule (independent restatement of each criterion), extents = min/max, fresh distinct ids, inputs untouched, idempotence of re-merging are asserted and confirmed over all paths.",
    note="Feature lengths bounded (<=4 / <=6) because merge() uses Feature.__len__ for truthiness; seqid/strand/type range over two values; children_bp/merge_all (database side) are not yet covered."),
+ "C15": dict(engine="X", technique=X, design="4/C15",
+   text="The real interfeatures runs under CrossHair on 3 (thorough 4) features with unbounded positions, arbitrary seqid/strand characters and gaps up to the bound; per consecutive pair the statement's rule (exactly one gap feature prev.end+1..next.start-1, none for touching/overlapping/seqid change, type and strand rule) is asserted, inputs untouched. Attribute union (sorted, duplicate-free, ID joined by '-', numeric_sort, update_attributes) on arbitrary characters. create_introns/create_splice_sites over the simsql stand-in for a transcript with 1-2 (thorough 3) exons on any strand, exons in file order or reversed; database unchanged.",
+   note="Gap sizes bounded (<=3; introns <=2) because `if new_feature:` is Feature.__len__; featuretypes concrete; numeric_sort over a finite alphabet; stand-ins bins_stub/jsonbox/simsql/fakefs; counterexamples replayed on the real stack."),
+ "C17": dict(engine="X", technique=X, design="4/C17",
+   text="Attributes/Feature setters (scalar, list, tuple; via mapping, Feature.__setitem__, update) always yield sequences and always_return_list only changes the view; merge_attributes = sorted duplicate-free union (numeric order under numeric_sort) without touching its arguments; f == g <=> printed lines equal, != its negation, equal features hash alike; the stored JSON form round-trips key order, empty lists and extra columns - each confirmed over all CrossHair paths on arbitrary characters within the length bounds.",
+   note="JSON clause holds under the json contract (the simplejson module object inside gffutils.helpers is replaced by jsonbox; gffutils' own _jsonify/_unjsonify run); simplejson's text encoding of arbitrary Unicode is third-party C code outside the claim. Finite alphabets where float()/hash() concretise."),
+ "C18": dict(engine="X", technique=X, design="4/C18",
+   text="len(f) == end-start+1 for any start; Feature.sequence against the pyfaidx slicing contract for every sequence over ACGTN up to length 4 (thorough 5), every 1 <= start <= end, every strand/use_strand; bed12 (id or Feature argument, name present/absent, 0-2 exons anywhere in a small window, 0-1 CDS) yields the twelve fields of the statement or ValueError exactly when the ascending blocks do not begin/end at the feature's ends; convert.to_bed12 agrees on the common core.",
+   note="bed12 coordinates range over a finite window (str(int) concretises); exons with equal starts and nested blocks reaching beyond the feature are outside the claim; fakefasta stands in for pyfaidx (replay uses real pyfaidx)."),
 }
 NA = {}
 def main():
